@@ -921,6 +921,13 @@ def verify_hyperparameters(input_keypoints=None,
       if len(input_keypoints.shape) != 1 or input_keypoints.shape[0] < 2:
         raise ValueError("Input keypoints must be rank-1 tensor of size at "
                          "least 2. It is: " + str(input_keypoints))
+      # Values of a constant tensor are known and can be verified as well.
+      static_keypoints = tf.get_static_value(input_keypoints)
+      if static_keypoints is not None and not all(
+          static_keypoints[i] < static_keypoints[i + 1]
+          for i in range(len(static_keypoints) - 1)):
+        raise ValueError("Keypoints must be strictly increasing. They are: " +
+                         str(static_keypoints))
     else:
       if len(input_keypoints) < 2:
         raise ValueError("At least 2 input keypoints must be provided. "
